@@ -69,7 +69,7 @@ CONSTANT SimLen
 EmitScenario == IF Len(hist) = SimLen THEN PrintT("SCEN " \o ToJson([n |-> n, steps |-> hist])) ELSE TRUE
 
 P_C04 == [][LET g2 == GNext(g, ev') IN
-            /\ C04_Get(g2) /\ C04_Owner(g2) /\ C04_EACL(g2) /\ C04_Alias(g2) /\ C04_Lists(g2) /\ C04_Count(g2)
+            /\ C04_Get(g2) /\ C04_Owner(g2) /\ C04_EACL(g2) /\ C04_Alias(g2) /\ C04_AliasRecord(g2) /\ C04_Lists(g2) /\ C04_Count(g2)
             /\ C04_Final(g, ev') /\ C04_NoTrace(g2) /\ C04_Notif(g, ev')]_mcvars
 P_C05 == [][C05_Exact(ev') /\ C05_MustPay(ev') /\ C05_Atomic(ev')]_mcvars
 
